@@ -34,7 +34,7 @@ for k in sorted(m, key=lambda x: (x[0] != "C", x[:3], x)):
     infra += [(k, p) for p, v in r.items() if isinstance(v, dict) and v.get("rc") == 2]
     ownc = "**missed**" if o.get("rc") != 1 else ("failing input" if o.get("with_failing_input") else "no-failing-input-found")
     oth = ", ".join(p + ("" if p in others_fi else "°") for p in others) or "—"
-    if r.get("own_only"):
+    if r.get("own_only") or set(k2 for k2, v2 in r.items() if isinstance(v2, dict)) <= {own}:
         oth = "(not run)"
     else:
         full += 1
@@ -52,9 +52,11 @@ for the other rounds that column says "(not run)" (an earlier full cross run ove
 described in §9). {caught_own} of {tot} changes are reported by their own check, {with_input} of them with a concrete
 failing input on the real code (the others with `no-failing-input-found`: a broken correspondence or theorem without
 a property clause failing on the cases drawn). Of the {full} changes run against everything, {any_caught} are reported
-by at least one check. A change marked **missed** in the own-check column is either a round-12 change (whose own
-property is by construction not the one that owns the composition — see "also alarmed") or one of the round-11
-changes listed in §9 as not modelled. Exit 2 (infrastructure) anywhere in the matrix: {('none' if not infra else ', '.join(f'{a}→{b}' for a, b in infra))}.
+by at least one check. A change marked **missed** in the own-check column is a round-12 change (whose own
+property is by construction not the one that owns the composition — see "also alarmed"), a change that another
+property's check reports (C01r, C02y, C09u, C10p: "also alarmed"), C19q (reported only with the change-triggered
+factor on, which is the default whenever the anchored source differs — the matrix is run with it off), or one of the
+five changes reported by no check at all: C07p, C12p, C15s, C16s, C18p (§9: uses of the library no harness models). Exit 2 (infrastructure) anywhere in the matrix: {('none' if not infra else ', '.join(f'{a}→{b}' for a, b in infra))}.
 
 | change | property | own check | also alarmed |
 |---|---|---|---|
